@@ -242,14 +242,19 @@ where
           | .fixed => none))
     | .cons _ t => go t
 
-/-- `element.values.iter().find_map(|kv| kv.key.string() == name …)` -/
+/-- `kv.key.string()` succeeds -/
+def strKey? : Val → Option (List Nat)
+  | .enum 4 (.cons (.blob bs) .nil) => some bs
+  | _ => none
+
+/-- `element.values.iter().find_map(|kv| if kv.key.string() == Ok(name) { Some(kv.value) } …)` -/
 def lookupKey (kvs : List (Val × Val)) (name : List Nat) : Option Val :=
   match kvs with
   | [] => none
   | (k, v) :: t =>
-    (match k with
-     | .enum 4 (.cons (.blob bs) .nil) => if bs == name then some v else lookupKey t name
-     | _ => lookupKey t name)
+    (match strKey? k with
+     | some bs => if bs == name then some v else lookupKey t name
+     | none => lookupKey t name)
 
 def idVal (form : IdForm) (id : Int) : UVal :=
   match form with
@@ -283,11 +288,8 @@ def fromDbElement (m : Mode) (fs : FieldList) (id : Int) (kvs : List (Val × Val
 
 /-! ### the database side: per-element ordered key-value lists -/
 
-def valEq : Val → Val → Bool
-  | a, b => toStrKey a == toStrKey b
-where
-  /-- structural key for comparing `DbValue`s (derived `PartialEq`; floats by `total_cmp` = bits) -/
-  toStrKey (v : Val) : List Nat := ser v
+/-- `DbValue: PartialEq` (derived; `DbF64` compares with `total_cmp`, i.e. by bit pattern) -/
+def valEq (a b : Val) : Bool := decide (a = b)
 
 structure Db where
   next : Nat := 1
